@@ -222,6 +222,12 @@ class SortEvent:
 def sort_events(ctx, pt, fn):
     out = []
     for n in own_nodes(fn.node):
+        if isinstance(n, ast.Assign) and len(n.targets) > 1:
+            # a = b = dict(sorted(x.items())): one sorted copy known by every target
+            info = sorted_copy_info(ctx.res, n.value, fn, fn.module)
+            if info is not None:
+                for t_ in n.targets:
+                    out.append(SortEvent(fn, n, t_, info[0], info[1]))
         if isinstance(n, ast.Assign) and len(n.targets) == 1:
             info = sorted_copy_info(ctx.res, n.value, fn, fn.module)
             if info is not None:
@@ -698,6 +704,12 @@ def value_kinds(ctx, pt, sites):
             bad = definitely_unencodable(ctx, ins.value, ins.fn)
             if bad and _never_executed(ctx, ins):
                 bad = None          # the tests that lead here contradict each other (`if n == 0:` ... `if n:`): dead code
+            if bad and bad.startswith("a value that can only be") and _guarded_against_none(ctx, ins):
+                bad = None          # `if x: ....append(x)` / `if x is not None:`: the statement does not run for the None the resolver sees
+            if bad and bad.startswith("a value that can only be") and isinstance(ins.value, ast.Attribute) and isinstance(ins.value.value, ast.Name) and ins.value.value.id != ins.fn.self_name:
+                # a field of a local record: the resolver knows its declared default, not what the constructor call put there
+                ctx.undecided("C06.4", ins.fn, "value stored in '%s' is `%s`, a field of a local object whose possible values are not known" % (label, norm(ins.value)), ins.node)
+                bad = None
             if bad:
                 ctx.violated("C06.4", ins.fn, "value stored in '%s' is %s: it cannot be bencoded canonically (pyben prints a bool as 'iTruee')" % (label, bad), ins.node)
             elif ins.key is not None and definitely_unencodable(ctx, ins.key, ins.fn):
@@ -706,6 +718,22 @@ def value_kinds(ctx, pt, sites):
               "value kinds of everything stored into a dumped structure", nontrivial=False) if not any(
         o.rule == "C06.4" and o.status == "VIOLATED" for o in ctx.obs) else None
     ctx.floor("values stored into dumped structures", 40, n)
+
+
+def _guarded_against_none(ctx, ins):
+    """The statement runs only when the stored expression is truthy / not None."""
+    fn = ins.fn
+    g = C.cfg_of(fn)
+    node = C.stmt_node(ctx, fn, ins.node)
+    want = norm(ins.value)
+
+    def atom(x):
+        if norm(x) == want:
+            return False                                   # the value is None: falsy
+        if isinstance(x, ast.Compare) and len(x.ops) == 1 and norm(x.left) == want and isinstance(x.comparators[0], ast.Constant) and x.comparators[0].value is None:
+            return isinstance(x.ops[0], (ast.Is, ast.Eq))
+        return None
+    return any(C.branch_when(b, atom) not in (None, lab) for b, lab in g.control_deps(node) if C.test_expr(b) is not None)
 
 
 def _never_executed(ctx, ins):
@@ -968,10 +996,13 @@ def run(ctx):
     for site in sites:
         nob += canonical_order(ctx, pt, site)
     ctx.floor("dictionary obligations (C06.1-3)", 20, nob)
-    value_kinds(ctx, pt, sites)
-    sole_content(ctx, sites)
-    required_keys(ctx, pt)
-    hash_kinds(ctx, pt)
+    # each group of rules on its own: an anchor that one of them misses leaves that group undecided, not the others
+    for rid_, part in (("C06.4", lambda: value_kinds(ctx, pt, sites)), ("C06.7", lambda: sole_content(ctx, sites)),
+                       ("C06.5", lambda: required_keys(ctx, pt)), ("C06.6", lambda: hash_kinds(ctx, pt))):
+        try:
+            part()
+        except AnalysisError as exc:
+            ctx.undecided(rid_, None, "this group of rules could not be completed: %s" % exc)
     from .dynscan import dynamic_features
     dynamic_features(ctx, "C06.0")
 
